@@ -1,0 +1,17 @@
+//go:build verif
+
+package spdx
+
+// Wrappers for the C11 verification harness (/verif/harness/cmd/c11). Wrappers only.
+
+func VerifStringToIdentifier(in string) string { return stringToIdentifier(in) }
+
+func VerifReplacePackage(doc *Document, originalID, newID string) {
+	replacePackage(doc, originalID, newID)
+}
+
+func VerifCopySBOMElements(sourceDoc, targetDoc *Document, todo map[string]struct{}) error {
+	return copySBOMElements(sourceDoc, targetDoc, todo)
+}
+
+const VerifApkSBOMDir = apkSBOMdir
